@@ -72,10 +72,26 @@ Proof.
 Qed.
 Print Assumptions C08_energy_is_expectation.
 
-(* 4. The reported energy with deflation circuits = <psi|H|psi> + sum_d coeff * |<psi|psi_d>|^2, for the lookup
-      as written (keyw = true) when every key has the width of the simulated circuit, and for the repaired
-      lookup (keyw = false) always; statevector route (the frequency route likewise, by 3). *)
+(* 4. The reported energy with deflation circuits = <psi|H|psi> + sum_d coeff * |<psi|psi_d>|^2 — for the lookup the
+      source performs now (regenerated: defl_key_is_ansatz_width = false, the key has the width of the simulated
+      circuit), with NO proviso on the widths of the circuits involved; statevector route and frequency route.
+      If the source goes back to the ansatz circuit's width this proof no longer checks. *)
 Theorem C08_energy_with_deflation :
+  forall (n : nat) (v : solver RS),
+    circ_in RS n (pc_gates (composed RS v)) -> op_wf RS (v_ham v) -> op_in RS n (v_ham v) ->
+    energy RS (sv_route RS) defl_key_is_ansatz_width n v = kadd (expect_op RS n (v_ham v) (prepared RS v)) (defl_spec RS n v)
+    /\ energy RS (freq_route RS rborn) defl_key_is_ansatz_width n v
+       = kadd (expect_op RS n (v_ham v) (prepared RS v)) (defl_spec RS n v).
+Proof.
+  intros n v Hc Hwf Hin.
+  destruct (C08_energy_is_expectation n v Hc Hwf Hin) as [_ [E1 [E2 _]]].
+  split; apply energy_spec; try assumption; left; reflexivity.
+Qed.
+Print Assumptions C08_energy_with_deflation.
+
+(* 4a. Both lookups: with the key built from the ansatz circuit's width (keyw = true, the code before the repair)
+       the same value is obtained exactly when every key has the width of the simulated circuit. *)
+Theorem C08_energy_with_deflation_any_lookup :
   forall (keyw : bool) (n : nat) (v : solver RS),
     circ_in RS n (pc_gates (composed RS v)) -> op_wf RS (v_ham v) -> op_in RS n (v_ham v) ->
     (keyw = false \/ widths_agree RS v) ->
@@ -86,22 +102,21 @@ Proof.
   destruct (C08_energy_is_expectation n v Hc Hwf Hin) as [_ [E1 [E2 _]]].
   split; apply energy_spec; assumption.
 Qed.
-Print Assumptions C08_energy_with_deflation.
+Print Assumptions C08_energy_with_deflation_any_lookup.
 
-(* 4b. The code as written (which key it looks up is regenerated from the source): when the key is built from
-       the ansatz circuit's width and that differs from the width of the simulated circuit, the term is 0. *)
-Theorem C08_deflation_width_mismatch_dropped :
-  defl_key_is_ansatz_width = true ->
+(* 4b. The lookup as it was written before the repair (as-is definition, keyw = true): when the ansatz circuit's
+       width differs from the width of the simulated circuit the term is 0 ... *)
+Example C08_deflation_width_mismatch_asis :
   forall (v : solver RS) (d : pcirc RS),
     pc_width (v_ansatz v) <> pc_width (padd RS d (pinv RS (composed RS v))) ->
-    defl_term RS defl_key_is_ansatz_width v d = @k0 RS.
-Proof. intros -> v d H. exact (defl_term_width_mismatch RS v d H). Qed.
-Print Assumptions C08_deflation_width_mismatch_dropped.
+    defl_term RS true v d = @k0 RS.
+Proof. exact (defl_term_width_mismatch RS). Qed.
+Print Assumptions C08_deflation_width_mismatch_asis.
 
-(* 4c. Refutation on the faithful model (exact instance, by evaluation): H = Z0, ansatz RY(pi/2) on qubit 0
-       (width 1), deflation circuit = the same gate declared on 2 qubits, coefficient 2.  Overlap probability 1,
-       but the energy as written is the plain energy; the repaired lookup meets the specification. *)
-Theorem C08_deflation_width_mismatch_refuted :
+(* 4c. ... which refutes the property for that definition (exact instance, by evaluation): H = Z0, ansatz RY(pi/2)
+       on qubit 0 (width 1), deflation circuit = the same gate declared on 2 qubits, coefficient 2.  Overlap
+       probability 1, but the as-is energy is the plain energy; the present lookup meets the specification. *)
+Example C08_deflation_width_mismatch_asis_refuted :
   exists (v : solver CycS) (d : pcirc CycS),
     v_defl v = [d] /\ circ_in CycS 2 (pc_gates (composed CycS v))
     /\ overlap_prob CycS 2 (pc_gates (composed CycS v)) (pc_gates d) = @k1 CycS
@@ -113,7 +128,7 @@ Proof.
   destruct wit_width_facts as [H1 [H2 [_ [H4 [H5 [H6 H7]]]]]].
   exact (conj H1 (conj H2 (conj H4 (conj H5 (conj H6 H7))))).
 Qed.
-Print Assumptions C08_deflation_width_mismatch_refuted.
+Print Assumptions C08_deflation_width_mismatch_asis_refuted.
 
 (* 5. Variational bound from an eigen-expansion (real numbers): if psi = sum_k c_k e_k with e_k orthonormal
       eigenvectors of H for real eigenvalues lambda_k >= lmin, then <psi|H|psi> = sum |c_k|^2 lambda_k,
@@ -144,22 +159,32 @@ Proof. exact rayleigh_bound_nonvacuous. Qed.
 Print Assumptions C08_rayleigh_nonvacuous.
 
 (* 6. operator_expectation as a state machine over the attribute qubit_hamiltonian (F fermionic operators,
-      X qubit operators, V numbers; backend / encodings / ansatz update are abstract): whenever the call RETURNS,
-      the attribute holds what it held before and the value is the backend's value for the requested operator —
-      with or without a finally clause. *)
+      X qubit operators, V numbers; backend / encodings / ansatz update are abstract), for the source as it is now
+      (regenerated: restore_in_finally = true): on EVERY path — returning or raising, whatever raises — the
+      attribute holds afterwards what it held before; and whenever the call returns, the value is the backend's
+      value for the requested operator.  If the finally clause disappears this proof no longer checks. *)
 Theorem C08_operator_swap_restored :
-  forall (F X V : Type) (fin : bool) (env : openv F X V) (ham : X) (req : opreq F X) (args : opargs) (v : V),
-    fst (opexp F X V fin env ham req args) = Ok v ->
-    snd (opexp F X V fin env ham req args) = ham
-    /\ exists h', resolve F X V env ham req args = Ok h' /\ e_update env = true /\ e_expect env h' = Ok v.
+  forall (F X V : Type) (env : openv F X V) (ham : X) (req : opreq F X) (args : opargs),
+    snd (opexp F X V restore_in_finally env ham req args) = ham
+    /\ forall v : V, fst (opexp F X V restore_in_finally env ham req args) = Ok v ->
+         exists h', resolve F X V env ham req args = Ok h' /\ e_update env = true /\ e_expect env h' = Ok v.
 Proof.
-  intros F X V fin env ham req args v H. split;
-    [exact (opexp_returns_restored F X V fin env ham req args v H)|exact (opexp_value F X V fin env ham req args v H)].
+  intros F X V env ham req args. split;
+    [exact (opexp_finally_restores F X V env ham req args)
+    |intros v H; exact (opexp_value F X V restore_in_finally env ham req args v H)].
 Qed.
 Print Assumptions C08_operator_swap_restored.
 
+(* with or without a finally clause: a RETURNING call restores the attribute *)
+Theorem C08_operator_swap_restored_on_return :
+  forall (F X V : Type) (fin : bool) (env : openv F X V) (ham : X) (req : opreq F X) (args : opargs) (v : V),
+    fst (opexp F X V fin env ham req args) = Ok v -> snd (opexp F X V fin env ham req args) = ham.
+Proof. exact opexp_returns_restored. Qed.
+Print Assumptions C08_operator_swap_restored_on_return.
+
 (* exceptions raised while the request is resolved (unknown name, wrong type, missing arguments, the mapping)
-   happen before the attribute is assigned; with a finally clause it is restored on every path *)
+   happen before the attribute is assigned; with a finally clause it is restored on every path; without one an
+   exception of update_var_params or of the backend leaves the replacement in place *)
 Theorem C08_operator_swap_exception_paths :
   forall (F X V : Type) (env : openv F X V) (ham : X) (req : opreq F X) (args : opargs),
     (forall fin e, resolve F X V env ham req args = Err e -> opexp F X V fin env ham req args = (Err e, ham))
@@ -176,15 +201,14 @@ Proof.
 Qed.
 Print Assumptions C08_operator_swap_exception_paths.
 
-(* refuted for the code as written (restore_in_finally is regenerated from the source): a QubitOperator request
-   with a parameter vector that update_var_params rejects leaves the replacement in the attribute *)
-Theorem C08_operator_swap_not_restored_on_exception_refuted :
-  restore_in_finally = false ->
+(* the as-is definition before the repair (fin = false) is refuted: a QubitOperator request with a parameter
+   vector that update_var_params rejects leaves the replacement in the attribute *)
+Example C08_operator_swap_asis_not_restored_on_exception :
   exists (env : openv unit bool unit) (ham : bool) (req : opreq unit bool) (args : opargs),
-    (exists e, fst (opexp unit bool unit restore_in_finally env ham req args) = Err e)
-    /\ snd (opexp unit bool unit restore_in_finally env ham req args) <> ham.
-Proof. intros ->. exact opexp_nofinally_refuted. Qed.
-Print Assumptions C08_operator_swap_not_restored_on_exception_refuted.
+    (exists e, fst (opexp unit bool unit false env ham req args) = Err e)
+    /\ snd (opexp unit bool unit false env ham req args) <> ham.
+Proof. exact opexp_nofinally_refuted. Qed.
+Print Assumptions C08_operator_swap_asis_not_restored_on_exception.
 
 (* 7. Which state operator_expectation evaluates: the circuit is (ref_state argument) + ansatz (+ projective).  It
       is the state of energy_estimation when the solver's reference circuit is used for the default argument, or no
@@ -243,9 +267,12 @@ Print Assumptions C08_double_reordering_shape.
 
 (* 9. build(): the Hamiltonian and the penalty are mapped with the solver's mapping / up_then_down and the
       molecule's ACTIVE-space electron, spin-orbital and spin data; energy_estimation composes
-      ansatz | reference + ansatz (+ projective) and the deflation loop simulates circ + circuit.inverse(). *)
+      ansatz | reference + ansatz (+ projective) and the deflation loop simulates circ + circuit.inverse();
+      operator_expectation takes the molecule's active-space data as defaults for EVERY mapping (not only inside
+      the scbk test) and compares the mapping name case-insensitively. *)
 Theorem C08_build_and_composition_facts :
   build_args_ok build_map_args = true /\ build_args_ok build_pen_args = true
-  /\ energy_compose_ok = true /\ defl_sim_order_ok = true.
+  /\ energy_compose_ok = true /\ defl_sim_order_ok = true
+  /\ defaults_guarded_by_scbk = false /\ scbk_case_sensitive = false.
 Proof. vm_compute. repeat split. Qed.
 Print Assumptions C08_build_and_composition_facts.
